@@ -73,7 +73,7 @@ fn gen_atom(rng: &mut Rng) -> Vec<u8> {
             let n = 1 + rng.usize(64);
             rng.bytes(n)
         }
-        7 => rng.bytes(1024),
+        7 => rng.bytes(if miri() { 40 } else { 1024 }),
         _ => {
             let n = rng.usize(9);
             rng.bytes(n)
@@ -104,8 +104,8 @@ fn check(rep: &mut Report, what: &str, got: &[u8], want: &[u8; 32], detail: impl
 }
 
 fn case_random_tree(rng: &mut Rng, rep: &mut Report) {
-    let big = rng.chance(1, 10);
-    let mut budget = 1 + rng.below(if big { 4000 } else { 60 }) as i64;
+    let big = rng.chance(1, 10) && !miri();
+    let mut budget = 1 + rng.below(if big { 4000 } else if miri() { 16 } else { 60 }) as i64;
     let t = gen_tree(rng, &mut budget, 0);
     let want = t.tree_hash();
     let ser = t.serialize();
@@ -147,7 +147,7 @@ fn case_random_tree(rng: &mut Rng, rep: &mut Report) {
 /// atoms 0..=40 and neighbours in small-int and heap representation
 fn case_small_atoms(rng: &mut Rng, rep: &mut Report) {
     let mut a = Allocator::new();
-    for v in 0u32..=300 {
+    for v in 0u32..=(if miri() { 26 } else { 300 }) {
         let bytes = vcore::ints::minimal_be_u64(u64::from(v));
         let want = sha256(&[&[1u8], &bytes]);
         let small = a.new_small_number(v).unwrap();
@@ -180,7 +180,7 @@ fn case_dag(rng: &mut Rng, rep: &mut Report, thorough: bool) {
         let b = gen_atom(rng);
         pool.push(Sx::atom(&b).to_node(&mut a, *rng.pick(&[Repr::Plain, Repr::Substr]), rng));
     }
-    let layers = if thorough { 20 + rng.usize(60) } else { 10 + rng.usize(30) };
+    let layers = if miri() { 4 + rng.usize(8) } else if thorough { 20 + rng.usize(60) } else { 10 + rng.usize(30) };
     for _ in 0..layers {
         // strongly prefer recent nodes => 2^layers unfolded paths
         let pick = |rng: &mut Rng, pool: &Vec<NodePtr>| {
@@ -294,7 +294,7 @@ fn case_history(rng: &mut Rng, rep: &mut Report) {
         trees.push((node, sx));
     }
     let mut cache = TreeCache::default();
-    let steps = 1 + rng.usize(50);
+    let steps = 1 + rng.usize(if miri() { 8 } else { 50 });
     let mut memoised = 0u64;
     for step in 0..steps {
         let (n, t) = &trees[rng.usize(trees.len())];
@@ -340,7 +340,7 @@ fn case_history(rng: &mut Rng, rep: &mut Report) {
 }
 
 fn case_deep(rng: &mut Rng, rep: &mut Report, thorough: bool) {
-    let depth = if thorough { 200_000 + rng.usize(800_000) } else { 20_000 + rng.usize(100_000) };
+    let depth = if miri() { 200 + rng.usize(300) } else if thorough { 200_000 + rng.usize(800_000) } else { 20_000 + rng.usize(100_000) };
     let mut a = Allocator::new();
     let left_spine = rng.bool();
     let leaf = gen_atom(rng);
@@ -462,8 +462,15 @@ fn case_tree_hasher(rng: &mut Rng, rep: &mut Report) {
     check(rep, "TreeHasher/tree_hash", tree_hash(&a, n).as_ref(), &want, || json!({"v64": v64}));
 }
 
+/// under the Miri interpreter (about 10^4 times slower) only small structures are used
+static MIRI: std::sync::atomic::AtomicBool = std::sync::atomic::AtomicBool::new(false);
+fn miri() -> bool {
+    MIRI.load(std::sync::atomic::Ordering::Relaxed)
+}
+
 fn main() {
     let args = Args::parse();
+    MIRI.store(args.lane == "miri", std::sync::atomic::Ordering::Relaxed);
     with_big_stack(move || {
         let mut rep = Report::new(&args.prop, &args.lane);
         let thorough = args.thorough();
